@@ -276,6 +276,22 @@ term, so `evalE c (lowerX …)` only ever uses the Go-core cases of the interpre
 theorem C02_lower_isGo (fn : String) (e : Expr) (h : e.src = true) : (lowerX fn e).isGo = true :=
   lowerX_isGo fn e h
 
+/-! ## compiling a node again gives the same code -/
+
+/-- `lower` is a function of the syntax tree alone: compiling the same node once more (the real
+compiler does so on the overload-retry path of `compileCallExpr`) yields the same Go term.  This
+is trivially true of the MODEL; it is stated because C02 relies on the corresponding fact about
+the COMPILER (it must not change its input tree while compiling), which no theorem here can
+establish — the harness family `overload_arg` (sugar compiled 2–3 times as arguments of an
+overloaded call) checks it on the real code. -/
+def recompile (fn : String) (e : Expr) : Nat → Expr
+  | 0 => lowerX fn e
+  | k + 1 => (fun (_previous : Expr) => lowerX fn e) (recompile fn e k)
+
+/-- (see above) the k-th recompilation of a node equals the first. -/
+theorem C02_lower_pure (fn : String) (e : Expr) (k : Nat) : recompile fn e k = lowerX fn e := by
+  cases k <;> rfl
+
 /-! ## non-vacuity: concrete instances (docs.md `[[a, b] for a <- arr if a < b for b <- arr if b > 2]`) -/
 
 def exArr : Expr := .sliceLit .int [.lit (.int 1), .lit (.int 2), .lit (.int 3), .lit (.int 4)]
